@@ -46,7 +46,9 @@ pub fn check_scenario(sc: &Scenario, renders: usize) -> Result<serde_json::Value
             if let crate::exec::Out::Panic(p) = &o {
                 return Err((p.key(), format!("render panicked under {}: {} at {}", policy.name(), p.msg, p.site())));
             }
-            outs.push(o.summary());
+            // failures carry the first line of their message: "fail alike" / "same result as its
+            // first use" is read as the same kind of failure, not merely some failure
+            outs.push(o.summary_with_error());
         }
         // repeated use equals first use
         if outs.iter().any(|o| o != &outs[0]) {
@@ -104,7 +106,7 @@ pub fn check_scenario(sc: &Scenario, renders: usize) -> Result<serde_json::Value
         };
         let hp = parser_with(Config::Stdlib, Policy::Eager, &healthy).map_err(|e| ("harness".to_string(), e.to_string()))?;
         if let Ok(t) = hp.parse(&sc.main) {
-            let want = render(&t, &data).summary();
+            let want = render(&t, &data).summary_with_error();
             for (policy, outs) in &results {
                 if outs[0] != want {
                     return Err((
